@@ -28,6 +28,12 @@ var props = map[string]propSpec{
 		Scenarios: []scenarioBudget{{Name: "c11", QuickSec: 40, ThoroughSec: 900}}},
 	"C19": {ID: "C19", Level: "exploration", Rule: ruleCommon, Assume: commonAssume,
 		Scenarios: []scenarioBudget{{Name: "c19", QuickSec: 40, ThoroughSec: 900}}},
+	"C13": {ID: "C13", Level: "exploration", Rule: ruleCommon, Assume: commonAssume,
+		Scenarios: []scenarioBudget{{Name: "c13", QuickSec: 40, ThoroughSec: 900}}},
+	"C14": {ID: "C14", Level: "exploration", Rule: ruleCommon, Assume: commonAssume,
+		Scenarios: []scenarioBudget{{Name: "c14", QuickSec: 40, ThoroughSec: 900}}},
+	"C15": {ID: "C15", Level: "exploration", Rule: ruleCommon, Assume: commonAssume,
+		Scenarios: []scenarioBudget{{Name: "c15", QuickSec: 40, ThoroughSec: 900}}},
 	"C06": {ID: "C06", Level: "exploration", Rule: ruleCommon, Assume: commonAssume,
 		Scenarios: []scenarioBudget{{Name: "c06", QuickSec: 40, ThoroughSec: 900}}},
 }
